@@ -57,7 +57,8 @@ def sh(cmd, timeout=1800, cwd=None, env=None, stdin_path=None, stdout_path=None)
 # Coq
 # --------------------------------------------------------------------------------------------
 FORBIDDEN = re.compile(r"\b(Admitted|admit|Axiom|Axioms|Parameter|Parameters|Conjecture|Conjectures|"
-                       r"Unset\s+Guard|bypass_check|type-in-type|impredicative-set|Admit\s+Obligations)\b")
+                       r"Unset\s+Guard|Unset\s+Positivity|Unset\s+Universe|bypass_check|type-in-type|impredicative-set|"
+                       r"Admit\s+Obligations)\b")
 
 
 def coq_sources():
